@@ -93,12 +93,15 @@ Section Top.
     unfold colw, all_rows. destruct (v_header v); reflexivity.
   Qed.
 
-  Theorem text_refines_proof d v :
-    1 <= v_ncols v -> wf_view v -> dec_ok d -> cells_ok W v ->
+  (* Rows and headers may hold more cells than the table has columns (a row
+     attached to two tables and extended through the other one): the layout
+     and the renderer both ignore the extra cells.  All that is needed of the
+     view's shape is one alignment slot per column plus column 0. *)
+  Theorem text_refines_any_rows d v :
+    1 <= v_ncols v -> length (v_align v) = S (v_ncols v) -> dec_ok d -> cells_ok W v ->
     text_render W d v = Ok (render_spec W d v).
   Proof.
-    intros Hn Hwf Hd Hc.
-    destruct Hwf as (Hfit & Hhfit & Hal & _).
+    intros Hn Hal Hd Hc.
     pose proof (dec_ok_div d Hd) as Hdiv.
     unfold text_render, text_render_writes.
     rewrite (dec_ok_not_empty d Hd).
@@ -121,7 +124,7 @@ Section Top.
       - apply header_widths_ok. eapply cells_ok_header; eauto.
       - rewrite map_map. cbn [Z.of_nat]. rewrite map_const_repeat, seq_length. reflexivity. }
     rewrite Ecw1.
-    rewrite (body_widths_ok W (v_ncols v) (v_rows v) f Hfit (cells_ok_rows v Hc)).
+    rewrite (body_widths_ok W (v_ncols v) (v_rows v) f (cells_ok_rows v Hc)).
     cbn [bind].
     assert (Ecw : map Z.of_nat
                     (map (fun i => fold_left Nat.max
@@ -134,20 +137,27 @@ Section Top.
     rewrite (column_aligns_ok v Hal). cbn [bind].
     (* bottom rule and body *)
     unfold line_bottom. rewrite (template_line_ok W d v Hn).
-    destruct (body_writes_ok W d v Hn Hdiv (v_rows v) Hfit) as (ws & Eb & Cb).
+    destruct (body_writes_ok W d v Hn Hdiv (v_rows v)) as (ws & Eb & Cb).
     rewrite Eb.
     unfold render_spec, layout, top_part.
     destruct (v_header v) as [h|] eqn:E; cbn [mrow_of option_map].
     - unfold line_header_top, line_header_body_sep.
       rewrite !(template_line_ok W d v Hn). cbn [bind].
       change (header_dividers d) with (hdr_div d).
-      rewrite (rendered_block_ok W v Hn (hdr_div d) h) by (try apply Hdiv; exact Hhfit).
+      rewrite (rendered_block_ok W v Hn (hdr_div d) h) by apply Hdiv.
       cbn [bind]. f_equal.
       rewrite !map_app, !concat_app. cbn [concat app]. rewrite !concat_app.
       rewrite !concat_rules. cbn [concat]. rewrite Cb, !app_nil_r, <- !app_assoc. reflexivity.
     - unfold line_body_top. rewrite (template_line_ok W d v Hn). cbn [bind]. f_equal.
       rewrite !map_app, !concat_app. cbn [concat app].
       rewrite !concat_rules. rewrite Cb, !app_nil_r. reflexivity.
+  Qed.
+
+  Theorem text_refines_proof d v :
+    1 <= v_ncols v -> wf_view v -> dec_ok d -> cells_ok W v ->
+    text_render W d v = Ok (render_spec W d v).
+  Proof.
+    intros Hn (_ & _ & Hal & _) Hd Hc. apply text_refines_any_rows; assumption.
   Qed.
 
   (* the list of writes: Render() is their concatenation *)
